@@ -338,6 +338,29 @@ def make_scenarios(seed, big=True):
             os.utime(p, ns=(st.st_atime_ns, st.st_mtime_ns))
         put(root, "d3/c", rbytes(seed * 100 + 64, 12 * kb), 1600000300)
     S.append(Scenario("sync-silent-3d3p", 3, 3, base5, e5, ["sync"], expect_rc=(1,)))
+
+    # S6: scrub of stripes in which one disk has a file whose time stamp changed since the sync (errors expected there) and
+    # another disk has silently rotted blocks (must be found and marked whatever the order in which the readers finish)
+    base6 = [("d1/a", rbytes(seed * 100 + 70, 6 * kb)), ("d2/b", rbytes(seed * 100 + 71, 6 * kb)),
+             ("d3/c", rbytes(seed * 100 + 72, 6 * kb)), ("d1/keep", rbytes(seed * 100 + 73, 100)),
+             ("d2/keep", rbytes(seed * 100 + 74, 100)), ("d3/keep", rbytes(seed * 100 + 75, 100))]
+
+    def e6(root):
+        os.utime(os.path.join(root, "d1/a"), ns=(1600000400 * 10**9, 1600000400 * 10**9))      # touched only
+        p = os.path.join(root, "d2/b")
+        st = os.stat(p)
+        with open(p, "r+b") as f:
+            for blk in (1, 2, 4):
+                f.seek(blk * kb + 5)
+                f.write(b"rot")
+        os.utime(p, ns=(st.st_atime_ns, st.st_mtime_ns))
+        p = os.path.join(root, "d3/c")
+        st = os.stat(p)
+        with open(p, "r+b") as f:
+            f.seek(3 * kb + 9)
+            f.write(b"rot")
+        os.utime(p, ns=(st.st_atime_ns, st.st_mtime_ns))
+    S.append(Scenario("scrub-touched-and-rotten-3d2p", 3, 2, base6, e6, ["-p", "full", "scrub"], expect_rc=(1,)))
     return S
 
 
